@@ -35,27 +35,21 @@ Proof.
   destruct (fc_greset g <? fc_ireset g) eqn:E; [discriminate|]. apply Z.ltb_ge in E. exact E.
 Qed.
 
-Lemma fc_amount_le_pour : forall g v, ~ (fc_pour g < v < fc_max g) -> fc_amount g v <= fc_pour g.
-Proof.
-  intros g v H. unfold fc_amount.
-  destruct (0 <? v) eqn:E1; destruct (v <? fc_max g) eqn:E2; cbn [andb]; lia.
-Qed.
-
 Lemma fc_add_coin_some : forall a b r, fc_add_coin a b = Some r -> r = a + b.
 Proof. intros a b r H. unfold fc_add_coin in H. destruct (_ <? _); inversion H; reflexivity. Qed.
 
-Lemma fc_valid_facts : forall g u gused bal,
-  fc_valid g u gused bal = true ->
-  (exists b, bal = Some b /\ fc_pour g <= b) /\
-  fc_pour g + fu_used u <= fc_plimit g /\ fc_pour g + gused <= fc_glimit g.
+Lemma fc_valid_facts : forall g u gused bal a,
+  fc_valid g u gused bal a = true ->
+  (exists b, bal = Some b /\ a <= b) /\
+  a + fu_used u <= fc_plimit g /\ a + gused <= fc_glimit g.
 Proof.
-  intros g u gused bal H. unfold fc_valid in H.
+  intros g u gused bal a H. unfold fc_valid in H.
   destruct bal as [b|]; [|discriminate].
-  destruct (b <? fc_pour g) eqn:E1; [discriminate|]. apply Z.ltb_ge in E1.
-  destruct (fc_add_coin (fc_pour g) (fu_used u)) as [t|] eqn:E2; [|discriminate].
+  destruct (b <? a) eqn:E1; [discriminate|]. apply Z.ltb_ge in E1.
+  destruct (fc_add_coin a (fu_used u)) as [t|] eqn:E2; [|discriminate].
   apply fc_add_coin_some in E2. subst t.
   destruct (fc_plimit g <? _) eqn:E3; [discriminate|]. apply Z.ltb_ge in E3.
-  destruct (fc_add_coin (fc_pour g) gused) as [gt|] eqn:E4; [|discriminate].
+  destruct (fc_add_coin a gused) as [gt|] eqn:E4; [|discriminate].
   apply fc_add_coin_some in E4. subst gt.
   apply negb_true_iff in H. apply Z.ltb_ge in H.
   split; [exists b; split; [reflexivity|lia]|lia].
@@ -73,7 +67,7 @@ Lemma fc_step_valid : forall st o st1 out, fc_step st o = (st1, out) ->
   fc_validate (fs_cfg st) = true -> fc_validate (fs_cfg st1) = true.
 Proof.
   intros st o st1 out H V. destruct o as [c now v bal|c now v bal|owner now parsed fields]; cbn [fc_step] in H.
-  - destruct (fc_valid _ _ _ _).
+  - cbv zeta in H. destruct (fc_valid _ _ _ _ _).
     + destruct (fc_add_coin _ _); [destruct (fc_add_coin _ _)|]; inversion H; subst; cbn [fs_cfg]; try assumption;
       rewrite fc_globals_cfg; assumption.
     + inversion H; subst; assumption.
@@ -86,12 +80,12 @@ Lemma fc_step_client : forall c st o st1 out, fc_step st o = (st1, out) ->
   fc_validate (fs_cfg st) = true ->
   let e := {| ev_cfg := fs_cfg st; ev_op := o; ev_out := out |} in
   fc_cview c st1 = fcs_client_step c (fc_cview c st) e /\
-  (fcs_is_pour_by c e -> ~ fc_unchecked_value e -> fcs_wsum (fc_cview c st1) <= fc_plimit (fs_cfg st)).
+  (fcs_is_pour_by c e -> fcs_wsum (fc_cview c st1) <= fc_plimit (fs_cfg st)).
 Proof.
   intros c st o st1 out H V e. subst e.
   destruct o as [c' now v bal|c' now v bal|owner now parsed fields]; cbn [fc_step] in H.
-  - unfold fcs_client_step, fcs_is_pour_by, fc_unchecked_value. cbn [ev_op ev_out ev_cfg].
-    destruct (fc_valid _ _ _ _) eqn:EV.
+  - unfold fcs_client_step, fcs_is_pour_by. cbn [ev_op ev_out ev_cfg]. cbv zeta in H.
+    destruct (fc_valid _ _ _ _ _) eqn:EV.
     2:{ inversion H; subst. split; [reflexivity|intros []]. }
     apply fc_valid_facts in EV. destruct EV as (_ & HP & _).
     rewrite fc_globals_cfg, fc_globals_users in *.
@@ -119,8 +113,7 @@ Proof.
         -- destruct (fc_ireset (fs_cfg st) <=? fc_sub now (fu_start x)); inversion Hu as [[Hs Hd]];
              rewrite E1, Hd; f_equal; f_equal; lia.
         -- inversion Hu as [[Hs Hd]]. rewrite E1, Hd. reflexivity.
-      * intros _ Hnt. cbn [fcs_wsum]. rewrite E1.
-        pose proof (fc_amount_le_pour (fs_cfg st) v Hnt). lia.
+      * intros _. cbn [fcs_wsum]. rewrite E1. lia.
     + apply Z.eqb_neq in EC. rewrite fc_find_set_other by exact EC.
       split; [reflexivity|intros Hc; contradiction].
   - unfold fcs_client_step, fcs_is_pour_by. cbn [ev_op ev_out].
@@ -139,13 +132,13 @@ Proof. intros. unfold fc_globals, fc_gview. cbn [fst]. destruct (_ <=? _); refle
 Lemma fc_step_global : forall st o st1 out, fc_step st o = (st1, out) ->
   let e := {| ev_cfg := fs_cfg st; ev_op := o; ev_out := out |} in
   fc_gview st1 = fcs_global_step (fc_gview st) e /\
-  ((exists a, out = FcPoured a) -> ~ fc_unchecked_value e -> snd (fc_gview st1) <= fc_glimit (fs_cfg st)) /\
-  (~ fc_unchecked_value e -> fcs_pour_within_balance e).
+  ((exists a, out = FcPoured a) -> snd (fc_gview st1) <= fc_glimit (fs_cfg st)) /\
+  fcs_pour_within_balance e.
 Proof.
   intros st o st1 out H e. subst e.
   destruct o as [c' now v bal|c' now v bal|owner now parsed fields]; cbn [fc_step] in H;
-    unfold fcs_global_step, fcs_pour_within_balance, fc_unchecked_value; cbn [ev_op ev_out ev_cfg fcs_op_now].
-  - destruct (fc_valid _ _ _ _) eqn:EV.
+    unfold fcs_global_step, fcs_pour_within_balance; cbn [ev_op ev_out ev_cfg fcs_op_now].
+  - cbv zeta in H. destruct (fc_valid _ _ _ _ _) eqn:EV.
     2:{ inversion H; subst. repeat split; auto. intros [a Ha]; discriminate. }
     apply fc_valid_facts in EV. destruct EV as ((b & Hb & Hbal) & _ & HG).
     rewrite fc_globals_cfg in *.
@@ -159,8 +152,8 @@ Proof.
     split; [|split].
     + destruct (fc_greset (fs_cfg st) <=? fc_sub now (fs_gstart st)); inversion HV as [[Hs Hu]];
         cbn [fst snd]; rewrite E2; reflexivity.
-    + intros _ Hnt. pose proof (fc_amount_le_pour (fs_cfg st) v Hnt). lia.
-    + intros Hnt. exists b. split; [exact Hb|]. pose proof (fc_amount_le_pour (fs_cfg st) v Hnt). lia.
+    + intros _. lia.
+    + exists b. split; [exact Hb|lia].
   - destruct bal as [b|]; [destruct (v <=? b)|]; inversion H; subst; (split; [|split; [intros [a Ha]; discriminate|auto]]); try reflexivity.
     apply fc_globals_gview.
   - destruct (owner && parsed); [destruct (fc_validate (fold_left _ _ _))|]; inversion H; subst;
@@ -179,112 +172,55 @@ Qed.
 
 Lemma fc_client_within_gen : forall c ops st,
   fc_validate (fs_cfg st) = true ->
-  (forall e, In e (snd (fc_run st ops)) -> ~ fc_unchecked_value e) ->
   fcs_client_within c (fc_cview c st) (snd (fc_run st ops)).
 Proof.
-  induction ops as [|o tl IH]; intros st V Hnt; [exact I|].
+  induction ops as [|o tl IH]; intros st V; [exact I|].
   rewrite fc_run_cons in *. cbn [snd] in *.
   destruct (fc_step st o) as [st1 out] eqn:ES. cbn [fst snd] in *.
   destruct (fc_step_client c _ _ _ _ ES V) as [Hv Hb]. cbn [fcs_client_within].
   rewrite <- Hv. split.
-  - intros Hp. cbn [ev_cfg]. apply Hb; [exact Hp|]. apply Hnt. left. reflexivity.
-  - apply IH; [eapply fc_step_valid; eauto|]. intros e He. apply Hnt. right. exact He.
+  - intros Hp. cbn [ev_cfg]. apply Hb. exact Hp.
+  - apply IH. eapply fc_step_valid; eauto.
 Qed.
 
 Lemma fc_global_within_gen : forall ops st,
-  (forall e, In e (snd (fc_run st ops)) -> ~ fc_unchecked_value e) ->
   fcs_global_within (fc_gview st) (snd (fc_run st ops)) /\
   Forall fcs_pour_within_balance (snd (fc_run st ops)).
 Proof.
-  induction ops as [|o tl IH]; intros st Hnt; [split; [exact I|constructor]|].
+  induction ops as [|o tl IH]; intros st; [split; [exact I|constructor]|].
   rewrite fc_run_cons in *. cbn [snd] in *.
   destruct (fc_step st o) as [st1 out] eqn:ES. cbn [fst snd] in *.
   destruct (fc_step_global _ _ _ _ ES) as (Hv & Hb & Hbal).
-  assert (Hnt0 : ~ fc_unchecked_value {| ev_cfg := fs_cfg st; ev_op := o; ev_out := out |})
-    by (apply Hnt; left; reflexivity).
-  destruct (IH st1) as [IH1 IH2]; [intros e He; apply Hnt; right; exact He|].
+  destruct (IH st1) as [IH1 IH2].
   split.
   - cbn [fcs_global_within]. rewrite <- Hv. split; [|exact IH1].
     intros Hp. cbn [ev_cfg ev_out] in *. apply Hb; assumption.
-  - constructor; [apply Hbal; exact Hnt0|exact IH2].
+  - constructor; [exact Hbal|exact IH2].
 Qed.
 
 (* ---------- statements used by Prop/C17.v ---------- *)
 
-Definition fc_full_statement : Prop :=
-  forall cfg ops, fc_cfg_wf cfg -> fc_validate cfg = true -> Forall fc_op_wf ops ->
-    let evs := snd (fc_run (fc_init cfg) ops) in
-    (forall c, fcs_client_within c None evs) /\
-    fcs_global_within (fc_zero_time, 0) evs /\
-    Forall fcs_pour_within_balance evs.
-
-Lemma fc_partial : forall cfg ops, fc_validate cfg = true ->
+Lemma fc_full : forall cfg ops, fc_validate cfg = true ->
   let evs := snd (fc_run (fc_init cfg) ops) in
-  (forall e, In e evs -> ~ fc_unchecked_value e) ->
   (forall c, fcs_client_within c None evs) /\
   fcs_global_within (fc_zero_time, 0) evs /\
   Forall fcs_pour_within_balance evs.
 Proof.
-  intros cfg ops V evs Hnt. subst evs.
-  split; [|exact (fc_global_within_gen ops (fc_init cfg) Hnt)].
-  intros c. exact (fc_client_within_gen c ops (fc_init cfg) V Hnt).
+  intros cfg ops V evs. subst evs.
+  split; [|exact (fc_global_within_gen ops (fc_init cfg))].
+  intros c. exact (fc_client_within_gen c ops (fc_init cfg) V).
 Qed.
 
-(* witness: pour_amount 10, max_pour_amount 100, periodic limit 100, global limit 100, faucet holds 50;
-   one client asks for 50 then 99: 149 > 100 poured to it (and globally) in one window, and 99 > 50 *)
+(* the input on which the contract used to pour 149 tokens to one client in one window although the
+   periodic limit is 100 (before the limits were checked with the poured amount); now the second
+   request is refused *)
 Definition fc_wit_cfg : fc_cfg :=
   {| fc_pour := 10; fc_max := 100; fc_plimit := 100; fc_glimit := 100;
      fc_ireset := 3600 * fc_second; fc_greset := 7200 * fc_second |}.
 Definition fc_wit_ops : list fc_op := [FcPour 1 1000 50 (Some 50); FcPour 1 1001 99 (Some 50)].
 
-Lemma fc_wit_wf : fc_cfg_wf fc_wit_cfg /\ fc_validate fc_wit_cfg = true /\ Forall fc_op_wf fc_wit_ops.
-Proof.
-  split; [|split].
-  - unfold fc_cfg_wf, fc_coin. vm_compute. intuition discriminate.
-  - vm_compute. reflexivity.
-  - assert (C : forall z, (0 <=? z) && (z <? fc_two64) = true -> fc_coin z).
-    { intros z Hz. apply andb_prop in Hz. destruct Hz as [H1 H2].
-      apply Z.leb_le in H1. apply Z.ltb_lt in H2. split; assumption. }
-    unfold fc_wit_ops. constructor; [|constructor; [|constructor]];
-      (split; [apply C; reflexivity|intros b Hb; inversion Hb; subst; apply C; reflexivity]).
-Qed.
-
-Lemma fc_wit_trace : snd (fc_run (fc_init fc_wit_cfg) fc_wit_ops) =
-  [ {| ev_cfg := fc_wit_cfg; ev_op := FcPour 1 1000 50 (Some 50); ev_out := FcPoured 50 |};
-    {| ev_cfg := fc_wit_cfg; ev_op := FcPour 1 1001 99 (Some 50); ev_out := FcPoured 99 |} ].
+Lemma fc_wit_trace : map ev_out (snd (fc_run (fc_init fc_wit_cfg) fc_wit_ops)) = [FcPoured 50; FcFail].
 Proof. vm_compute. reflexivity. Qed.
-
-Lemma fc_refuted_client : ~ (forall c, fcs_client_within c None (snd (fc_run (fc_init fc_wit_cfg) fc_wit_ops))).
-Proof.
-  intros H. specialize (H 1). rewrite fc_wit_trace in H.
-  cbn [fcs_client_within] in H. destruct H as (_ & H & _).
-  assert (Hp : 149 <= 100) by (apply H; reflexivity). lia.
-Qed.
-
-Lemma fc_refuted_global : ~ fcs_global_within (fc_zero_time, 0) (snd (fc_run (fc_init fc_wit_cfg) fc_wit_ops)).
-Proof.
-  rewrite fc_wit_trace. intros H. cbn [fcs_global_within] in H. destruct H as (_ & H & _).
-  assert (Hp : 149 <= 100) by (apply H; eexists; reflexivity). lia.
-Qed.
-
-Lemma fc_refuted_balance : ~ Forall fcs_pour_within_balance (snd (fc_run (fc_init fc_wit_cfg) fc_wit_ops)).
-Proof.
-  rewrite fc_wit_trace. intros H. inversion H as [|? ? _ H0]; subst. inversion H0 as [|? ? H1 _]; subst.
-  destruct H1 as [b [Hb Hle]]. inversion Hb; subst. lia.
-Qed.
-
-Lemma fc_refuted : ~ fc_full_statement.
-Proof.
-  intros H. destruct fc_wit_wf as (W & V & O).
-  destruct (H fc_wit_cfg fc_wit_ops W V O) as [Hc _]. exact (fc_refuted_client Hc).
-Qed.
-
-(* every part of the statement fails on the witness, not just the first *)
-Lemma fc_refuted_each :
-  let evs := snd (fc_run (fc_init fc_wit_cfg) fc_wit_ops) in
-  ~ (forall c, fcs_client_within c None evs) /\ ~ fcs_global_within (fc_zero_time, 0) evs /\
-  ~ Forall fcs_pour_within_balance evs.
-Proof. exact (conj fc_refuted_client (conj fc_refuted_global fc_refuted_balance)). Qed.
 
 (* update-settings never leaves an invalid configuration, and never touches the counters *)
 Lemma fc_reachable_valid : forall ops cfg, fc_validate cfg = true ->
@@ -296,12 +232,11 @@ Proof.
   destruct (fc_step st o) as [st1 out] eqn:ES. eapply fc_step_valid; eauto.
 Qed.
 
-(* a request outside the trigger that is refused changes nothing; an accepted pour moves exactly
-   the amount it reports (this is what ties the trace to the counters) *)
+(* a refused request changes nothing *)
 Lemma fc_fail_noop : forall st o st1, fc_step st o = (st1, FcFail) -> st1 = st.
 Proof.
   intros st o st1 H. destruct o as [c now v bal|c now v bal|owner now parsed fields]; cbn [fc_step] in H.
-  - destruct (fc_valid _ _ _ _); [destruct (fc_add_coin _ _); [destruct (fc_add_coin _ _)|]|]; inversion H; reflexivity.
+  - cbv zeta in H. destruct (fc_valid _ _ _ _ _); [destruct (fc_add_coin _ _); [destruct (fc_add_coin _ _)|]|]; inversion H; reflexivity.
   - destruct bal as [b|]; [destruct (v <=? b)|]; inversion H; reflexivity.
   - destruct (owner && parsed); [destruct (fc_validate _)|]; inversion H; reflexivity.
 Qed.
